@@ -1,4 +1,6 @@
 import GceTcb.Proofs.KeyHistory
+import GceTcb.Proofs.KeyHistoryKms
+import GceTcb.Proofs.RotateKms
 /-
 C12 — Chain-of-trust invariants hold over every key-management history.
 Property theorems only (model: Model/KeyHistory.lean, documented profiles: Spec/KeyHistory.lean,
@@ -468,5 +470,464 @@ example :
       [.bootstrap noFlags ⟨"same", "same", 1, 2, 1000⟩, .rotate noFlags ⟨"same", none, 2000⟩, .rotate ⟨false, true⟩ ⟨"same", some 1, 3000⟩]).ca.primarySigning
       = ⟨"primarySigningKey", 1⟩ := by
   refine ⟨⟨fun _ => ⟨rfl, rfl, rfl⟩, fun h => by simp [isBootstrap] at h, fun h => by simp [isBootstrap] at h, trivial⟩, by decide⟩
+
+
+/-! ## The Cloud KMS key manager (keys/gcpkms) with gcsca
+
+Model: Model/KeyHistoryKms.lean (`kStep`, `kRun`); the certificate authority, the certificate records and
+sops.GoogleCertificateTemplate are those of the theorems above (`caCfg` = gcsca with the repaired upload).
+All theorems quantify over every pair of cryptoKey ids `cfg` (root ≠ signing where stated), every history `h`
+of commands — each with its own Cloud KMS environment (generation delay, expiring context) and, for
+bootstrap, either visiting order of gcsca.Finalize's certificate map — and external events (generation
+completes, a version is disabled, destroy-scheduled versions are destroyed).
+
+Proved for ALL histories: C12_kms_root_profile, C12_kms_serial_succ / _override, C12_kms_rotation_retires_previous,
+C12_kms_names_fresh (version numbers are never handed out twice: stronger than "between wipeouts"),
+C12_kms_no_clobber.  Signing profile and only-the-primary-signs fail for histories that bootstrap over a
+NON-EMPTY CERTIFICATE STORE (C12-K7 and the Cloud KMS forms of K1 / K2) and only for those: `CleanRunK`.  Wipeout
+totality fails for a version that is PENDING_GENERATION during the wipeout (C12-K6) and only for those:
+`NoPending`, which every history without an expiring context has (`C12_kms_no_deadline_no_pending`).
+
+What "can sign" means on Cloud KMS: `Svc.signer? n` — GetPublicKey / AsymmetricSign answer for version `n`, i.e. the
+version is ENABLED.  Cloud KMS does not consult the manifest: an ENABLED version signs whether or not the
+authority records it.  The clause "only the current primary signing key can sign" is read, as for the nonprod
+managers, over the key versions the authority RECORDS (a signature of an unrecorded version has no certificate
+and so no chain to the root): `C12_kms_only_primary_signs_partial`.  Against DestroyKeyVersion it says: a
+successful rotation leaves the previous primary DESTROY_SCHEDULED (`C12_kms_rotation_retires_previous`, all
+histories).  A rotation that fails after CreateCryptoKeyVersion leaves its new version behind — ENABLED or
+PENDING_GENERATION — and nothing but `wipeout keys` ever destroys it (`C12_kms_leftover_enabled`); such a version is
+never recorded (`C12_kms_enabled_nonprimary_unrecorded`), the nonprod managers behave the same way, and it is
+not a violation of the property as read; it is a live-key leak worth a cleanup step in rotate.Key.
+-/
+open KmsH
+
+/-- The regenerated facts the Cloud KMS theorems rest on: rotate.Key runs its steps in sequence (Finalize before
+    DestroyKeyVersion), and gcpkms.destroyableState sends exactly ENABLED and DISABLED to DestroyCryptoKeyVersion. -/
+theorem C12_kms_consts :
+    CertConsts.rotateSequential = true ∧
+    GceTcb.Kms.destroyableState VSt.enabled.code = some true ∧
+    GceTcb.Kms.destroyableState VSt.disabled.code = some true ∧
+    GceTcb.Kms.destroyableState VSt.scheduled.code = some false ∧
+    GceTcb.Kms.destroyableState VSt.destroyed.code = some false ∧
+    (∀ g, GceTcb.Kms.destroyableState (VSt.pending g).code = some false) := by
+  refine ⟨by decide, by decide, by decide, by decide, by decide, fun _ => ?_⟩
+  show GceTcb.Kms.destroyableState Gen.Kms.stPendingGeneration = some false
+  decide
+
+/-- **Root profile, all histories.**  The root certificate the authority serves is a self-signed CA certificate
+    with certificate-signing usage and the 25-year lifetime. -/
+theorem C12_kms_root_profile (cfg : KCfg) (h : List KCmd) (r : Cert)
+    (hb : bundle caCfg (kRun cfg KState.init h).ca = some r) : RootProfile r :=
+  (InvU_run cfg h _ InvU_init).root r hb
+
+/-- FULL STATEMENT (fails today, see C12_kms_finding_stale_root_entry): every certificate the authority records
+    other than the primary root's has the signing profile and is issued by the served root. -/
+def C12_kms_signing_profile : Prop :=
+  ∀ (cfg : KCfg), cfg.rootKey ≠ cfg.signKey → ∀ (h : List KCmd) (n : KName) (c : Cert),
+    certificate (kRun cfg KState.init h).ca n = some c → n ≠ (kRun cfg KState.init h).ca.primaryRoot →
+    SignProfile c ∧ ∃ r, bundle caCfg (kRun cfg KState.init h).ca = some r ∧ IssuedBy r c
+
+/-- Proved part: histories whose bootstraps all start from an empty certificate store — whatever Cloud KMS holds
+    (versions of earlier lives, leftovers), with any names, serials, flags, environments, events.  Missing:
+    a bootstrap over a populated store leaves entries of the previous chain recorded (C12-K7, K1). -/
+theorem C12_kms_signing_profile_partial (cfg : KCfg) (hne : cfg.rootKey ≠ cfg.signKey) (h : List KCmd)
+    (hc : CleanRunK cfg KState.init h) (n : KName) (c : Cert)
+    (hn : certificate (kRun cfg KState.init h).ca n = some c)
+    (hroot : n ≠ (kRun cfg KState.init h).ca.primaryRoot) :
+    SignProfile c ∧ ∃ r, bundle caCfg (kRun cfg KState.init h).ca = some r ∧ IssuedBy r c := by
+  obtain ⟨_, hk⟩ := InvK_run cfg hne h _ InvU_init InvK_init hc
+  unfold certificate at hn
+  cases he : get (kRun cfg KState.init h).ca.entries n with
+  | none => simp [he] at hn
+  | some p => simp only [he] at hn; exact hk.good n p c he hroot hn
+
+def kmsCfg : KCfg := ⟨"rk", "sk"⟩
+def env0 : Env := ⟨0, false⟩
+def kgFlags : Flags := ⟨false, true⟩
+
+/-- bootstrap; wipeout keys; bootstrap --keep_going -/
+def kmsRebootHistory : List KCmd :=
+  [.bootstrap noFlags ⟨"rootA", "signA", 1, 2, 1000⟩ env0 false, .wipeout noFlags false true,
+   .bootstrap kgFlags ⟨"rootA", "signA", 7, 8, 2000⟩ env0 false]
+
+/-- C12-K7 witness: after `bootstrap; wipeout keys; bootstrap --keep_going` the root cryptoKey has version 2,
+    which is the primary root, and the entry of version 1 — a CA certificate — is still recorded. -/
+theorem C12_kms_finding_stale_root_entry : ¬ C12_kms_signing_profile := by
+  intro hfull
+  have h := hfull kmsCfg (by decide) kmsRebootHistory ⟨"rk", 1⟩
+    ⟨1, 1, "rootA", "rootA", 1, 0, 0, 0, true, 96, 13, 1000, 1000 + rootLifetime⟩ (by decide) (by decide)
+  have hca := h.1.1
+  revert hca; decide
+
+/-! ### serial numbers -/
+
+/-- Unless overridden (and unless keep_going lets Finalize skip the write), a successful rotation records for
+    the new primary — the version Cloud KMS just numbered — a certificate whose subject serial is one greater
+    than its predecessor's and whose certificate serial equals its subject serial.  All histories. -/
+theorem C12_kms_serial_succ (cfg : KCfg) (h : List KCmd) (f : Flags) (a : RotArgs) (e : Env)
+    (hs : a.serial = none) (hk : f.keepGoing = false)
+    (hok : (kStep cfg (kRun cfg KState.init h) (.rotate f a e)).2 = true) :
+    ∃ p c, certificate (kRun cfg KState.init h).ca (kRun cfg KState.init h).ca.primarySigning = some p ∧
+      (kStep cfg (kRun cfg KState.init h) (.rotate f a e)).1.ca.primarySigning =
+        (kRun cfg KState.init h).svc.nextName cfg.signKey ∧
+      certificate (kStep cfg (kRun cfg KState.init h) (.rotate f a e)).1.ca
+        (kStep cfg (kRun cfg KState.init h) (.rotate f a e)).1.ca.primarySigning = some c ∧
+      c.subjSerial = p.subjSerial + 1 ∧ c.certSerial = c.subjSerial := by
+  generalize kRun cfg KState.init h = s at hok ⊢
+  simp only [kStep] at hok ⊢
+  rw [hs] at hok ⊢
+  simp only [resolveSerial] at hok ⊢
+  cases hp : certificate s.ca s.ca.primarySigning with
+  | none => simp [hp] at hok
+  | some p =>
+    simp only [hp] at hok ⊢
+    rcases kRotate_shape cfg f e s a.cn (p.subjSerial + CertConsts.rotateDefaultIncrement) a.now with
+      ⟨_, e2, _⟩ | ⟨c, _, _, _, h4, h5, h6, _⟩
+    · rw [e2] at hok; cases hok
+    · obtain ⟨_, _, _, _, _, c5, c6, _⟩ := kRotCert_some h4
+      obtain ⟨k1, k2⟩ := caAfterRotate_ok_nokg h5 hk
+      refine ⟨p, c, rfl, ?_, ?_, ?_, ?_⟩
+      · rw [h6]; exact k1
+      · rw [h6, k1]; exact k2
+      · rw [c5]; rfl
+      · rw [c6, c5]
+
+/-- With an override the recorded subject serial (and certificate serial) is the override. -/
+theorem C12_kms_serial_override (cfg : KCfg) (h : List KCmd) (f : Flags) (a : RotArgs) (e : Env) (n : Nat)
+    (hs : a.serial = some n) (hk : f.keepGoing = false)
+    (hok : (kStep cfg (kRun cfg KState.init h) (.rotate f a e)).2 = true) :
+    ∃ c, certificate (kStep cfg (kRun cfg KState.init h) (.rotate f a e)).1.ca
+        (kStep cfg (kRun cfg KState.init h) (.rotate f a e)).1.ca.primarySigning = some c ∧
+      c.subjSerial = n ∧ c.certSerial = n := by
+  generalize kRun cfg KState.init h = s at hok ⊢
+  simp only [kStep] at hok ⊢
+  rw [hs] at hok ⊢
+  simp only [resolveSerial] at hok ⊢
+  rcases kRotate_shape cfg f e s a.cn n a.now with ⟨_, e2, _⟩ | ⟨c, _, _, _, h4, h5, h6, _⟩
+  · rw [e2] at hok; cases hok
+  · obtain ⟨_, _, _, _, _, c5, c6, _⟩ := kRotCert_some h4
+    obtain ⟨k1, k2⟩ := caAfterRotate_ok_nokg h5 hk
+    exact ⟨c, by rw [h6, k1]; exact k2, c5, c6⟩
+
+/-! ### only the primary signing key can sign -/
+
+/-- FULL STATEMENT (fails today, see C12_kms_finding_rebootstrap_old_key): among the key versions the authority
+    records, other than the primary root, only the primary signing key version is ENABLED. -/
+def C12_kms_only_primary_signs : Prop :=
+  ∀ (cfg : KCfg), cfg.rootKey ≠ cfg.signKey → ∀ (h : List KCmd) (n : KName) (c : Cert) (k : Nat),
+    certificate (kRun cfg KState.init h).ca n = some c → n ≠ (kRun cfg KState.init h).ca.primaryRoot →
+    (kRun cfg KState.init h).svc.signer? n = some k → n = (kRun cfg KState.init h).ca.primarySigning
+
+/-- Proved part: histories whose bootstraps all start from an empty certificate store: every recorded
+    signing-key version other than the primary is neither ENABLED nor PENDING_GENERATION — it went through
+    DestroyCryptoKeyVersion, or was disabled and never re-enabled. -/
+theorem C12_kms_only_primary_signs_partial (cfg : KCfg) (hne : cfg.rootKey ≠ cfg.signKey) (h : List KCmd)
+    (hc : CleanRunK cfg KState.init h) (n : KName) (c : Cert) (k : Nat)
+    (hn : certificate (kRun cfg KState.init h).ca n = some c)
+    (hroot : n ≠ (kRun cfg KState.init h).ca.primaryRoot)
+    (hl : (kRun cfg KState.init h).svc.signer? n = some k) :
+    n = (kRun cfg KState.init h).ca.primarySigning := by
+  obtain ⟨_, hk⟩ := InvK_run cfg hne h _ InvU_init InvK_init hc
+  have hrec : Recorded (kRun cfg KState.init h).ca n := by
+    unfold certificate at hn
+    unfold Recorded
+    cases he : get (kRun cfg KState.init h).ca.entries n with
+    | none => simp [he] at hn
+    | some p => rfl
+  by_cases e : n = (kRun cfg KState.init h).ca.primarySigning
+  · exact e
+  · have := hk.onlyPrimary n hrec hroot e
+    rw [(signer?_usable' hl).2] at this; cases this
+
+/-- … equivalently: an ENABLED version other than the two primaries has no certificate on record. -/
+theorem C12_kms_enabled_nonprimary_unrecorded (cfg : KCfg) (hne : cfg.rootKey ≠ cfg.signKey) (h : List KCmd)
+    (hc : CleanRunK cfg KState.init h) (n : KName) (k : Nat)
+    (hl : (kRun cfg KState.init h).svc.signer? n = some k)
+    (hroot : n ≠ (kRun cfg KState.init h).ca.primaryRoot) (hps : n ≠ (kRun cfg KState.init h).ca.primarySigning) :
+    certificate (kRun cfg KState.init h).ca n = none := by
+  cases hcert : certificate (kRun cfg KState.init h).ca n with
+  | none => rfl
+  | some c => exact absurd (C12_kms_only_primary_signs_partial cfg hne h hc n c k hcert hroot hl) hps
+
+/-- bootstrap; a rotation refused by Finalize (its serial is the first signing key's: version 2 stays ENABLED,
+    unrecorded); a rotation (version 3 primary, version 1 destroyed); bootstrap --keep_going over the populated
+    store: it adopts the FIRST enabled version, 2, and version 3 stays recorded and ENABLED. -/
+def kmsOldKeyHistory : List KCmd :=
+  [.bootstrap noFlags ⟨"rootA", "signA", 1, 2, 1000⟩ env0 false, .rotate noFlags ⟨"signA", some 2, 2000⟩ env0,
+   .rotate noFlags ⟨"signA", none, 3000⟩ env0, .bootstrap kgFlags ⟨"rootA", "signA", 1, 9, 4000⟩ env0 false]
+
+/-- Witness (the Cloud KMS form of C12-K2): a bootstrap over a populated store leaves the previous primary
+    recorded and ENABLED beside the new one. -/
+theorem C12_kms_finding_rebootstrap_old_key : ¬ C12_kms_only_primary_signs := by
+  intro hfull
+  have h := hfull kmsCfg (by decide) kmsOldKeyHistory ⟨"sk", 3⟩
+    ⟨3, 3, "signA", "rootA", 1, 3, 0, 0, false, 1, 13, 3000, 3000 + signLifetime⟩ 3 (by decide) (by decide) (by decide)
+  revert h; decide
+
+/-- **A successful rotation retires the previous primary — all histories.**  When rotate.Key returns without
+    error and there was a primary signing key version, that version is DESTROY_SCHEDULED afterwards (it was
+    ENABLED or DISABLED and DestroyCryptoKeyVersion accepted it) and cannot sign. -/
+theorem C12_kms_rotation_retires_previous (cfg : KCfg) (h : List KCmd) (f : Flags) (a : RotArgs) (e : Env)
+    (hok : (kStep cfg (kRun cfg KState.init h) (.rotate f a e)).2 = true)
+    (hps : (kRun cfg KState.init h).ca.primarySigning ≠ noName) :
+    ((kStep cfg (kRun cfg KState.init h) (.rotate f a e)).1.svc.ver? (kRun cfg KState.init h).ca.primarySigning).map (·.st)
+      = some .scheduled ∧
+    (kStep cfg (kRun cfg KState.init h) (.rotate f a e)).1.svc.signer? (kRun cfg KState.init h).ca.primarySigning = none := by
+  generalize kRun cfg KState.init h = s at hok hps ⊢
+  simp only [kStep] at hok ⊢
+  cases hr : resolveSerial s.ca a.serial with
+  | none => simp [hr] at hok
+  | some n =>
+    simp only [hr] at hok ⊢
+    rcases kRotate_shape cfg f e s a.cn n a.now with ⟨_, e2, _⟩ | ⟨c, _, _, _, _, _, _, h7⟩
+    · rw [e2] at hok; cases hok
+    · rcases h7 with ⟨e0, _, _⟩ | ⟨_, e2, e3⟩
+      · exact absurd e0 hps
+      · rw [e3] at hok
+        obtain ⟨d1, d2⟩ := (destroy_spec (rotSvc cfg e s) s.ca.primarySigning).2.1 hok
+        have hhas : ((rotSvc cfg e s).destroy s.ca.primarySigning).1.has s.ca.primarySigning = true :=
+          (((destroy_spec (rotSvc cfg e s) s.ca.primarySigning).1).1 _ d1).1
+        rw [e2]
+        have hv := ver?_of_has hhas
+        refine ⟨by rw [hv]; simp [d2], ?_⟩
+        unfold Svc.signer?
+        rw [hv]
+        cases hx : ((rotSvc cfg e s).destroy s.ca.primarySigning).1.ver s.ca.primarySigning with
+        | mk st m =>
+          rw [hx] at d2; simp only at d2; subst d2; rfl
+
+/-- bootstrap; a rotation whose serial collides with the first signing certificate: Finalize refuses -/
+def kmsLeftoverHistory : List KCmd :=
+  [.bootstrap noFlags ⟨"rootA", "signA", 1, 2, 1000⟩ env0 false, .rotate noFlags ⟨"signA", some 2, 2000⟩ env0]
+
+/-- **Leftovers of failed attempts stay ENABLED** (not a violation as the clause is read; a live-key leak): the
+    refused rotation of a clean run leaves version 2 of the signing cryptoKey ENABLED, able to sign, unrecorded;
+    the primary is still version 1; a later successful rotation creates version 3, retires version 1 and leaves
+    version 2 as it is; `wipeout keys` destroys it. -/
+theorem C12_kms_leftover_enabled :
+    CleanRunK kmsCfg KState.init kmsLeftoverHistory ∧
+    (kRun kmsCfg KState.init kmsLeftoverHistory).svc.signer? ⟨"sk", 2⟩ = some 2 ∧
+    certificate (kRun kmsCfg KState.init kmsLeftoverHistory).ca ⟨"sk", 2⟩ = none ∧
+    (kRun kmsCfg KState.init kmsLeftoverHistory).ca.primarySigning = ⟨"sk", 1⟩ ∧
+    (kRun kmsCfg KState.init (kmsLeftoverHistory ++ [.rotate noFlags ⟨"signA", none, 3000⟩ env0])).svc.signer? ⟨"sk", 2⟩ = some 2 ∧
+    (kRun kmsCfg KState.init (kmsLeftoverHistory ++ [.rotate noFlags ⟨"signA", none, 3000⟩ env0])).ca.primarySigning = ⟨"sk", 3⟩ ∧
+    (kRun kmsCfg KState.init (kmsLeftoverHistory ++ [.wipeout noFlags false true])).svc.signer? ⟨"sk", 2⟩ = none := by
+  refine ⟨⟨fun _ => rfl, fun h => by simp [isBootstrapK] at h, trivial⟩, by decide, by decide, by decide, by decide, by decide, by decide⟩
+
+/-! ### key-version names -/
+
+/-- **Version numbers are never handed out twice — all histories** (stronger than "not reused between
+    wipeouts": Cloud KMS keeps counting across wipeouts).  Before any command: the name the next
+    CreateCryptoKeyVersion hands out under a cryptoKey does not exist and is not recorded by the authority. -/
+theorem C12_kms_names_fresh (cfg : KCfg) (h : List KCmd) (k : String) :
+    (kRun cfg KState.init h).svc.has ((kRun cfg KState.init h).svc.nextName k) = false ∧
+    certificate (kRun cfg KState.init h).ca ((kRun cfg KState.init h).svc.nextName k) = none := by
+  have hu := InvU_run cfg h _ InvU_init
+  exact ⟨nextName_not_has _ _, by simp [certificate, hu.next_fresh k]⟩
+
+/-- … and a successful rotation's new primary is that name: a version that did not exist before, ENABLED now. -/
+theorem C12_kms_rotation_new_version (cfg : KCfg) (h : List KCmd) (f : Flags) (a : RotArgs) (e : Env)
+    (hk : f.keepGoing = false)
+    (hok : (kStep cfg (kRun cfg KState.init h) (.rotate f a e)).2 = true) :
+    (kStep cfg (kRun cfg KState.init h) (.rotate f a e)).1.ca.primarySigning = (kRun cfg KState.init h).svc.nextName cfg.signKey ∧
+    (kRun cfg KState.init h).svc.has ((kRun cfg KState.init h).svc.nextName cfg.signKey) = false ∧
+    (kStep cfg (kRun cfg KState.init h) (.rotate f a e)).1.svc.has ((kRun cfg KState.init h).svc.nextName cfg.signKey) = true := by
+  refine ⟨?_, nextName_not_has _ _, ?_⟩
+  · generalize kRun cfg KState.init h = s at hok ⊢
+    simp only [kStep] at hok ⊢
+    cases hr : resolveSerial s.ca a.serial with
+    | none => simp [hr] at hok
+    | some n =>
+      simp only [hr] at hok ⊢
+      rcases kRotate_shape cfg f e s a.cn n a.now with ⟨_, e2, _⟩ | ⟨c, _, _, _, _, h5, h6, _⟩
+      · rw [e2] at hok; cases hok
+      · rw [h6]; exact (caAfterRotate_ok_nokg h5 hk).1
+  · generalize kRun cfg KState.init h = s at hok ⊢
+    simp only [kStep] at hok ⊢
+    cases hr : resolveSerial s.ca a.serial with
+    | none => simp [hr] at hok
+    | some n =>
+      simp only [hr] at hok ⊢
+      rcases kRotate_shape cfg f e s a.cn n a.now with ⟨_, e2, _⟩ | ⟨c, _, h2, _, _, _, _, h7⟩
+      · rw [e2] at hok; cases hok
+      · rcases h7 with ⟨_, e2, _⟩ | ⟨_, e2, _⟩
+        · rw [e2]; exact h2
+        · rw [e2]; exact ((destroy_spec _ _).1.1 _ h2).1
+
+/-- No command takes a version away, renumbers one, gives a version other key material or brings one back:
+    every existing version still exists afterwards, in the same or a LATER state (nothing re-enables, nothing
+    returns to PENDING_GENERATION), and version counts do not decrease. -/
+theorem C12_kms_versions_only_move_forward (cfg : KCfg) (s : KState) (c : KCmd) (n : KName) (hn : s.svc.has n = true) :
+    (kStep cfg s c).1.svc.has n = true ∧ ((kStep cfg s c).1.svc.ver n).mat = (s.svc.ver n).mat ∧
+    (((kStep cfg s c).1.svc.ver n).st = .enabled → (s.svc.ver n).st = .enabled ∨ (s.svc.ver n).st.isPending = true) ∧
+    s.svc.count n.base ≤ (kStep cfg s c).1.svc.count n.base := by
+  obtain ⟨h1, h2⟩ := Prog_step cfg s c
+  obtain ⟨a1, a2, a3⟩ := h1 n hn
+  exact ⟨a1, a3, a2.2.2, (h2 n.base ((has_iff _ _).mp hn).1).2⟩
+
+/-- C10's naming scheme `<cryptoKey>/cryptoKeyVersions/<n>`: distinct numbers are distinct resource names. -/
+theorem C12_kms_version_names_injective (parent : String) (a b : Nat)
+    (h : GceTcb.CA.verName parent a = GceTcb.CA.verName parent b) : a = b :=
+  GceTcb.CA.verName_inj parent a b h
+
+/-! ### no certificate object changes without overwrite -/
+
+/-- All histories: a bootstrap or rotation without overwrite leaves every existing certificate object and the
+    root object as they were. -/
+theorem C12_kms_no_clobber (cfg : KCfg) (h : List KCmd) (c : KCmd)
+    (hi : isIssuingK c = true) (hf : c.flags.overwrite = false) :
+    (∀ p x, get (kRun cfg KState.init h).ca.objects p = some x → get (kStep cfg (kRun cfg KState.init h) c).1.ca.objects p = some x) ∧
+    (∀ r, (kRun cfg KState.init h).ca.rootObj = some r → (kStep cfg (kRun cfg KState.init h) c).1.ca.rootObj = some r) := by
+  generalize kRun cfg KState.init h = s
+  have key : ∀ m : Mut, (∀ p x, get s.ca.objects p = some x → get (gcsFinalize true c.flags s.ca m).1.objects p = some x) ∧
+      (∀ r, s.ca.rootObj = some r → (gcsFinalize true c.flags s.ca m).1.rootObj = some r) := by
+    intro m
+    obtain ⟨e1, e2⟩ := gcsFinalize_ext true c.flags s.ca m
+    refine ⟨e1 hf, ?_⟩
+    intro r hr
+    rcases e2 with e | ⟨r', _, _, e⟩
+    · rw [e]; exact hr
+    · rcases e with e | e
+      · rw [hr] at e; cases e
+      · rw [hf] at e; cases e
+  cases c with
+  | wipeout f a b => simp [isIssuingK] at hi
+  | ext x => simp [isIssuingK] at hi
+  | bootstrap f a e sf =>
+    simp only [kStep]
+    rcases (kBootstrap_shape cfg f a e sf s).2 with ⟨e1, _⟩ | ⟨rootKV, signKV, _, _, _, _, _, _, h7, _⟩
+    · rw [e1]; exact ⟨fun _ _ hx => hx, fun _ hx => hx⟩
+    · rw [h7]
+      rcases kBootCerts_shape f a (kBootstrap cfg f a e sf s).1.svc rootKV signKV s.ca sf with e1 | ⟨rc, sc, rk, sk, _, _, _, _, e1⟩
+      · rw [e1]; exact ⟨fun _ _ hx => hx, fun _ hx => hx⟩
+      · rw [e1]; exact key _
+  | rotate f a e =>
+    simp only [kStep]
+    cases hr : resolveSerial s.ca a.serial with
+    | none => exact ⟨fun _ _ hx => hx, fun _ hx => hx⟩
+    | some n =>
+      simp only []
+      rcases kRotate_shape cfg f e s a.cn n a.now with ⟨e1, _, _⟩ | ⟨c, _, _, _, _, _, h6, _⟩
+      · rw [e1]; exact ⟨fun _ _ hx => hx, fun _ hx => hx⟩
+      · rw [h6, caAfterRotate_eq]; exact key _
+
+
+/-! ### wipeout -/
+
+/-- All histories: `wipeout ca` leaves no certificate recorded, stored or served. -/
+theorem C12_kms_wipeout_ca (cfg : KCfg) (h : List KCmd) (f : Flags) (k : Bool) :
+    (kStep cfg (kRun cfg KState.init h) (.wipeout f true k)).1.ca = CA.empty ∧
+    (∀ n, certificate (kStep cfg (kRun cfg KState.init h) (.wipeout f true k)).1.ca n = none) ∧
+    bundle caCfg (kStep cfg (kRun cfg KState.init h) (.wipeout f true k)).1.ca = none :=
+  ⟨rfl, fun _ => rfl, rfl⟩
+
+/-- FULL STATEMENT (fails today, see C12_kms_finding_pending_survives): after a successful `wipeout keys` no key
+    version can sign — now, or after whatever Cloud KMS does on its own (pending generations completing, versions
+    disabled, destroy-scheduled versions destroyed). -/
+def C12_kms_wipeout_total : Prop :=
+  ∀ (cfg : KCfg) (h : List KCmd) (f : Flags) (c : Bool),
+    (kStep cfg (kRun cfg KState.init h) (.wipeout f c true)).2 = true →
+    ∀ (t : List KmsH.Ext) (n : KName),
+      (kRun cfg (kStep cfg (kRun cfg KState.init h) (.wipeout f c true)).1 (t.map .ext)).svc.signer? n = none
+
+/-- Proved part: no key version is PENDING_GENERATION when the wipeout runs.  Then every version is
+    DESTROY_SCHEDULED or DESTROYED afterwards and stays unable to sign under every sequence of external events.
+    Missing: Manager.wipeoutKey skips PENDING_GENERATION versions (Cloud KMS refuses to destroy them) — C12-K6. -/
+theorem C12_kms_wipeout_total_partial (cfg : KCfg) (h : List KCmd) (f : Flags) (c : Bool)
+    (hnp : NoPending (kRun cfg KState.init h).svc)
+    (_hok : (kStep cfg (kRun cfg KState.init h) (.wipeout f c true)).2 = true)
+    (t : List KmsH.Ext) (n : KName) :
+    (kRun cfg (kStep cfg (kRun cfg KState.init h) (.wipeout f c true)).1 (t.map .ext)).svc.signer? n = none :=
+  Dead_signer (Dead_exts cfg t _ (wipeKeys_dead _ (NoPend_of_NoPending hnp))) n
+
+/-- … and more: with no version PENDING_GENERATION, `wipeout keys` reports success and every key version that
+    exists is DESTROY_SCHEDULED or DESTROYED afterwards — none is left DISABLED, which an operator could enable again. -/
+theorem C12_kms_wipeout_retires_all (cfg : KCfg) (h : List KCmd) (f : Flags) (c : Bool)
+    (hnp : NoPending (kRun cfg KState.init h).svc) :
+    (kStep cfg (kRun cfg KState.init h) (.wipeout f c true)).2 = true ∧
+    ∀ n, (kRun cfg KState.init h).svc.has n = true →
+      ((kStep cfg (kRun cfg KState.init h) (.wipeout f c true)).1.svc.ver n).st = .scheduled ∨
+      ((kStep cfg (kRun cfg KState.init h) (.wipeout f c true)).1.svc.ver n).st = .destroyed :=
+  ⟨wipeKeys_ok _ (NoPend_of_NoPending hnp), fun n hn => wipeKeys_gone _ (NoPend_of_NoPending hnp) n hn⟩
+
+/-- Every history in which no command's context expires during a wait (no "timeout waiting for key generation")
+    has no PENDING_GENERATION version at any command boundary — so wipeout is total in all of them. -/
+theorem C12_kms_no_deadline_no_pending (cfg : KCfg) (h : List KCmd) (hd : NoDeadline h) :
+    NoPending (kRun cfg KState.init h).svc :=
+  NoPending_of_NoPend (NoPend_run cfg h _ hd (fun n hn => by simp [KState.init, Svc.init, Svc.has] at hn))
+
+theorem C12_kms_wipeout_total_no_deadline (cfg : KCfg) (h : List KCmd) (hd : NoDeadline h) (f : Flags) (c : Bool)
+    (hok : (kStep cfg (kRun cfg KState.init h) (.wipeout f c true)).2 = true) (t : List KmsH.Ext) (n : KName) :
+    (kRun cfg (kStep cfg (kRun cfg KState.init h) (.wipeout f c true)).1 (t.map .ext)).svc.signer? n = none :=
+  C12_kms_wipeout_total_partial cfg h f c (C12_kms_no_deadline_no_pending cfg h hd) hok t n
+
+/-- bootstrap; a rotation whose context expires while version 2 of the signing cryptoKey is being generated -/
+def kmsPendingHistory : List KCmd :=
+  [.bootstrap noFlags ⟨"rootA", "signA", 1, 2, 1000⟩ env0 false, .rotate noFlags ⟨"signA", none, 2000⟩ ⟨1, true⟩]
+
+/-- C12-K6 witness: the version left PENDING_GENERATION by the timed-out rotation is skipped by `wipeout keys`
+    (which reports success), its generation completes afterwards, and it can sign. -/
+theorem C12_kms_finding_pending_survives : ¬ C12_kms_wipeout_total := by
+  intro hfull
+  have h := hfull kmsCfg kmsPendingHistory noFlags false (by decide) [.settle] ⟨"sk", 2⟩
+  revert h; decide
+
+/-! ### the listing scan of bootstrap is C20's -/
+
+/-- Manager.getEnabledOrPendingKeyVersion as modelled here (`scan`: first ENABLED version, else the last
+    PENDING_GENERATION one, else none) is C20's `Kms.scanPage` over the listing of the cryptoKey's versions under
+    their resource names — so C20's theorems on paging, selection and termination of that loop speak about the
+    bootstrap of this model. -/
+theorem C12_kms_scan_is_C20_scanPage (s : Svc) (ring k : String) :
+    GceTcb.Kms.scanPage ((List.range' 1 (s.count k)).map fun j =>
+        (⟨GceTcb.CA.verName (ring ++ "/cryptoKeys/" ++ k) j, (s.ver ⟨k, j⟩).st.code⟩ : GceTcb.Kms.Ver)) none =
+      (match scan s k with
+       | .ret j => GceTcb.Kms.Scan.ret ⟨GceTcb.CA.verName (ring ++ "/cryptoKeys/" ++ k) j, (s.ver ⟨k, j⟩).st.code⟩
+       | .cont p => GceTcb.Kms.Scan.cont (p.map fun j =>
+           ⟨GceTcb.CA.verName (ring ++ "/cryptoKeys/" ++ k) j, (s.ver ⟨k, j⟩).st.code⟩)) :=
+  scanFrom_eq_scanPage (fun i => (s.ver ⟨k, i⟩).st) (fun j => GceTcb.CA.verName (ring ++ "/cryptoKeys/" ++ k) j)
+    (s.count k) 1 none
+
+/-! ### non-vacuity (Cloud KMS) -/
+
+/-- bootstrap; rotate; rotate (the second with a generation delay); everything wiped; a second life with
+    keep_going (the key ring and the cryptoKeys are still there); rotate -/
+def kmsGoodHistory : List KCmd :=
+  [.bootstrap noFlags ⟨"GCE-cc-tcb-root", "GCE-uefi-signer", 1, 2, 1000⟩ env0 false,
+   .rotate noFlags ⟨"GCE-uefi-signer", none, 2000⟩ env0, .rotate noFlags ⟨"GCE-uefi-signer", none, 3000⟩ ⟨2, false⟩,
+   .ext .expire, .wipeout noFlags true true,
+   .bootstrap kgFlags ⟨"GCE-cc-tcb-root", "GCE-uefi-signer", 1, 2, 5000⟩ env0 true,
+   .rotate noFlags ⟨"GCE-uefi-signer", none, 6000⟩ env0]
+
+/-- The history meets every hypothesis used above: a clean run without expiring contexts; after it the primary
+    root is version 2 of the root cryptoKey, the primary signing key version 5 of the signing cryptoKey (numbers
+    1–3 belong to the first life, 4 to the second bootstrap), two signing certificates with serials 2 and 3 are
+    recorded, only versions rk/2 and sk/5 can sign, a further default rotation and one with an override succeed,
+    and so does the wipeout. -/
+example : CleanRunK kmsCfg KState.init kmsGoodHistory ∧ NoDeadline kmsGoodHistory := by
+  refine ⟨⟨fun _ => rfl, fun h => ?_, fun h => ?_, fun h => ?_, fun h => ?_, fun _ => by decide, fun h => ?_, trivial⟩,
+    ⟨rfl, rfl, rfl, rfl, rfl, trivial⟩⟩ <;> simp [isBootstrapK] at h
+
+example :
+    (kRun kmsCfg KState.init kmsGoodHistory).ca.primaryRoot = ⟨"rk", 2⟩ ∧
+    (kRun kmsCfg KState.init kmsGoodHistory).ca.primarySigning = ⟨"sk", 5⟩ ∧
+    ((kRun kmsCfg KState.init kmsGoodHistory).ca.objects.map (·.2.subjSerial)) = [2, 1, 3] ∧
+    (kRun kmsCfg KState.init kmsGoodHistory).svc.live = [⟨"rk", 2⟩, ⟨"sk", 5⟩] ∧
+    ((kRun kmsCfg KState.init kmsGoodHistory).svc.ver? ⟨"sk", 4⟩).map (·.st) = some .scheduled ∧
+    ((kRun kmsCfg KState.init kmsGoodHistory).svc.ver? ⟨"sk", 1⟩).map (·.st) = some .destroyed ∧
+    (bundle caCfg (kRun kmsCfg KState.init kmsGoodHistory).ca).isSome = true ∧
+    (kStep kmsCfg (kRun kmsCfg KState.init kmsGoodHistory) (.rotate noFlags ⟨"GCE-uefi-signer", none, 7000⟩ env0)).2 = true ∧
+    (kStep kmsCfg (kRun kmsCfg KState.init kmsGoodHistory) (.rotate noFlags ⟨"GCE-uefi-signer", some 9, 7000⟩ env0)).2 = true ∧
+    (kStep kmsCfg (kRun kmsCfg KState.init kmsGoodHistory) (.wipeout noFlags false true)).2 = true := by
+  decide
+
+/-- C12_kms_no_clobber is not vacuous: a rotation without overwrite onto the recorded object of another key
+    version is refused and changes nothing; so is a bootstrap without keep_going over the existing key ring. -/
+example :
+    (kStep kmsCfg (kRun kmsCfg KState.init kmsGoodHistory) (.rotate noFlags ⟨"GCE-uefi-signer", some 2, 7000⟩ env0)).2 = false ∧
+    (kStep kmsCfg (kRun kmsCfg KState.init kmsGoodHistory) (.rotate owFlags ⟨"GCE-uefi-signer", some 2, 7000⟩ env0)).2 = false ∧
+    (kStep kmsCfg (kRun kmsCfg KState.init kmsGoodHistory)
+      (.bootstrap noFlags ⟨"GCE-cc-tcb-root", "GCE-uefi-signer", 1, 2, 9000⟩ env0 false)).2 = false := by
+  decide
 
 end GceTcb.KeyHistory
